@@ -28,7 +28,7 @@ impl AsmParser {
     /// stream free of whitespace/comment/eof tokens whose only directive tokens are `.orig`
     #[verifier::external_body]
     fn new(src: &'static str) -> (r: Result<AsmParser>)
-        ensures r matches Ok(p) ==> pstream_ok(p) && p.line == 1 && p.air.ast@.len() == 0 && p.air.breakpoints.0@.len() == 0,
+        ensures r matches Ok(p) ==> pstream_ok(p) && p.line == 1 && p.air.ast@.len() == 0 && p.air.breakpoints.0@.len() == 0 && p.toks.pos() == 0,
     { unimplemented!() }
 
 //@fn src/parser.rs "impl AsmParser" parse ret=r props=C07 assumed
